@@ -231,19 +231,42 @@ fn main() {
         let r = match v {
             "rv" => run_variant(
                 sc,
-                RealVectorStateSpace::new(2, Some(vec![(0.0, 10.0), (0.0, 10.0)])).unwrap(),
+                {
+                    let mut sp = RealVectorStateSpace::new(2, Some(vec![(0.0, 10.0), (0.0, 10.0)])).unwrap();
+                    if let Some(f) = sc.get("lvs_fraction").and_then(|x| x.as_f64()) {
+                        sp.set_longest_valid_segment_fraction(f);
+                    }
+                    sp
+                },
                 &|f| RealVectorState::new(f.to_vec()),
                 Rc::new(|s: &RealVectorState| s.values.clone()),
             ),
-            "so2" => run_variant(sc, SO2StateSpace::new(None).unwrap(), &|f| SO2State::new(f[0]), Rc::new(|s: &SO2State| vec![s.value])),
+            "so2" => run_variant(
+                sc,
+                {
+                    let mut sp = SO2StateSpace::new(None).unwrap();
+                    if let Some(f) = sc.get("lvs_fraction").and_then(|x| x.as_f64()) {
+                        sp.set_longest_valid_segment_fraction(f);
+                    }
+                    sp
+                },
+                &|f| SO2State::new(f[0]),
+                Rc::new(|s: &SO2State| vec![s.value]),
+            ),
             "so3" => run_variant(
                 sc,
-                match sc.get("so3_bounds").and_then(|b| b.as_array()) {
-                    Some(b) => {
-                        let b: Vec<f64> = b.iter().map(|x| x.as_f64().unwrap()).collect();
-                        SO3StateSpace::new(Some((SO3State::new(b[0], b[1], b[2], b[3]), b[4]))).unwrap()
+                {
+                    let mut sp = match sc.get("so3_bounds").and_then(|b| b.as_array()) {
+                        Some(b) => {
+                            let b: Vec<f64> = b.iter().map(|x| x.as_f64().unwrap()).collect();
+                            SO3StateSpace::new(Some((SO3State::new(b[0], b[1], b[2], b[3]), b[4]))).unwrap()
+                        }
+                        None => SO3StateSpace::new(None).unwrap(),
+                    };
+                    if let Some(f) = sc.get("lvs_fraction").and_then(|x| x.as_f64()) {
+                        sp.set_longest_valid_segment_fraction(f);
                     }
-                    None => SO3StateSpace::new(None).unwrap(),
+                    sp
                 },
                 &|f| SO3State::new(f[0], f[1], f[2], f[3]),
                 Rc::new(|s: &SO3State| vec![s.x, s.y, s.z, s.w]),
